@@ -6,10 +6,14 @@ From Coq Require Import List ZArith Bool String.
 Import ListNotations.
 Require Import Base Show InvModel InvCode Invariant Invariants.
 
-Lemma validate_is_check cls invs s : validate code cls invs s = check cls invs s.
+Lemma enabled_eta s : s_enabled s = true -> set_enabled (set_enabled s false) true = s.
+Proof. destruct s as [i e]; cbn. intro H; subst. reflexivity. Qed.
+(* _deal_validate leaves the state (the switch included) as it found it and gives the verdict of InvModel.check *)
+Lemma validate_is_check cls invs s : validate code cls invs s = (s, check cls invs s).
 Proof.
   unfold validate, check. cbn [c_validate code exec_validate].
-  destruct (s_enabled s); [|reflexivity]. destruct (of_vres (validate_all cls (s_inst s) invs)); reflexivity.
+  destruct (s_enabled s) eqn:E; [|reflexivity].
+  cbn [s_inst set_enabled]. destruct (of_vres (validate_all cls (s_inst s) invs)); rewrite (enabled_eta s E); reflexivity.
 Qed.
 Lemma setattr_is_store_then_check cls invs s n v :
   setattr code cls invs s n v = (set_attr s n v, check cls invs (set_attr s n v)).
@@ -106,8 +110,11 @@ Proof.
 Qed.
 
 (* disabled: _deal_validate evaluates nothing *)
-Theorem validate_inert cls invs s : s_enabled s = false -> validate code cls invs s = None.
+Theorem validate_inert cls invs s : s_enabled s = false -> validate code cls invs s = (s, None).
 Proof. intro H. unfold validate. cbn [c_validate code exec_validate]. rewrite H. reflexivity. Qed.
+(* whatever the verdict, _deal_validate leaves the switch as it found it *)
+Theorem validate_restores_switch cls invs s : fst (validate code cls invs s) = s.
+Proof. rewrite validate_is_check. reflexivity. Qed.
 
 (* invariant(): stacking deal.inv decorators gives the validators in decoration order (innermost first), and nothing once contracts
    are permanently removed *)
